@@ -423,24 +423,50 @@ pub fn mkdir_p(p: &Path) {
     std::fs::create_dir_all(p).unwrap_or_else(|e| panic!("mkdir_p {:?}: {}", p, e));
 }
 
+/// Remove a tree. Descriptor-relative (works for trees deeper than PATH_MAX),
+/// never follows links.
 pub fn rm_rf(p: &Path) {
-    // Paths may contain odd modes; fix up and remove. Never follows links.
-    fn inner(p: &Path) {
-        if let Ok(md) = std::fs::symlink_metadata(p) {
-            if md.is_dir() {
-                let _ = std::fs::set_permissions(p, std::os::unix::fs::PermissionsExt::from_mode(0o700));
-                if let Ok(rd) = std::fs::read_dir(p) {
-                    for e in rd.flatten() {
-                        inner(&e.path());
-                    }
+    fn rm_at(dirfd: i32, name: &[u8], depth: usize) {
+        let c = match CString::new(name) {
+            Ok(c) => c,
+            Err(_) => return,
+        };
+        if unsafe { libc::unlinkat(dirfd, c.as_ptr(), 0) } == 0 {
+            return;
+        }
+        if unsafe { libc::unlinkat(dirfd, c.as_ptr(), libc::AT_REMOVEDIR) } == 0 {
+            return;
+        }
+        if depth > 100_000 {
+            return;
+        }
+        unsafe { libc::fchmodat(dirfd, c.as_ptr(), 0o700, 0) };
+        if let Ok(fd) = openat_raw(dirfd, name, libc::O_RDONLY | libc::O_DIRECTORY | libc::O_NOFOLLOW, 0) {
+            if let Ok(names) = listdir(fd) {
+                for n in names {
+                    rm_at(fd, &n, depth + 1);
                 }
-                let _ = std::fs::remove_dir(p);
-            } else {
-                let _ = std::fs::remove_file(p);
             }
+            close(fd);
+            unsafe { libc::unlinkat(dirfd, c.as_ptr(), libc::AT_REMOVEDIR) };
         }
     }
-    inner(p);
+    let parent = p.parent().unwrap_or(Path::new("/"));
+    let name = match p.file_name() {
+        Some(n) => n,
+        None => return,
+    };
+    if let Ok(pfd) = openat_raw(libc::AT_FDCWD, parent.as_os_str().as_bytes(), libc::O_RDONLY | libc::O_DIRECTORY, 0) {
+        // deep trees need a deep stack
+        let name = name.as_bytes().to_vec();
+        let h = std::thread::Builder::new().stack_size(256 << 20).spawn(move || {
+            rm_at(pfd, &name, 0);
+            close(pfd);
+        });
+        if let Ok(h) = h {
+            let _ = h.join();
+        }
+    }
 }
 
 pub fn now_s() -> f64 {
